@@ -284,6 +284,15 @@ def core_specs(P: str = "U", variant: int = 0) -> list[CS]:
                 FS("cb", "child", f"{E} | None", "opt", (E,), default="None"),
             ),
         ),
+        CS(
+            f"{P}Call",
+            (E,),
+            F(
+                FS("args", "child", f"tuple[{E}, ...]", "tuple", (E,), default="()"),
+                FS("fn", "child", f"{E} | None", "opt", (E,), default="None"),
+                FS("kwargs", "child", f"Tuple[{E}, ...]", "tuple", (E,), default="()"),
+            ),
+        ),
         CS(f"{P}Left", (E,), F(FS("l", "child", f"{E} | None", "opt", (E,), default="None"), FS("lv", "prop", "int", "int", default="0"))),
         CS(f"{P}Right", (E,), F(FS("r", "child", f"{E} | None", "opt", (E,), default="None"), FS("rv", "prop", "int", "int", default="0"))),
         CS(f"{P}Both", (f"{P}Left", f"{P}Right"), []),
